@@ -758,6 +758,10 @@ func c03LaterPipe(c *Case) {
 		switch {
 		case timedOut:
 			c.Inconclusive("cli-timeout")
+		case !quiet && ((out.String() != full1+full2 && !sameLinesOrderFree(full1+full2, out.String())) || cmd.ProcessState.ExitCode() != 0):
+			// the waiting state was not observed, but the process has ended by itself and what it wrote is wrong: decisive all the same
+			c.NonTrivial("later-pipe:" + string(d1))
+			c.Violation(fmt.Sprintf("binary, a file followed by a named pipe: exit %d, stdout differs from the expected output: %s", cmd.ProcessState.ExitCode(), diffAt(full1+full2, out.String())), nil, map[string]any{"first": string(d1), "second": string(d2), "stderr": errb.String()})
 		case !quiet:
 			c.Inconclusive("cli-not-quiescent")
 		case got < len(full1):
